@@ -61,8 +61,10 @@ def recursion_bounded(ctx):
     # (b) ancestor test
     def anc(d):
         return d[0] == "call" and re.search(r"slice::<impl \[.*\]>::contains$|::contains$", d[1]) and not d[1].endswith("contains_key") and "<impl str>" not in d[1] and "str::" not in d[1]
-    et = bool_edges(b, anc, True)
-    ef = bool_edges(b, anc, False)
+    # (a membership test whose positive outcome does not lead to an error is something else, e.g. a de-duplication spliced in from a helper)
+    errs = [bb for (bb, st) in b.aggregates("Result", "Err")]
+    et = [e for e in bool_edges(b, anc, True) if any(bb in b.dominated_by_edge(e) for bb in errs)]
+    ef = [e for e in bool_edges(b, anc, False) if any(e2.src == e.src for e2 in et)]
     ancestor = False
     if et and ef:
         Gf = set()
